@@ -92,6 +92,7 @@ type Param struct {
 	Group      string  `json:"group,omitempty"`
 	Soft       bool    `json:"soft,omitempty"`
 	NamedSlice bool    `json:"named_slice,omitempty"` // group consumer declared as KS<i>
+	NamedAlt   bool    `json:"named_alt,omitempty"`   // with NamedSlice: declared as KT<i> instead of KS<i>
 	Fields     []Param `json:"fields,omitempty"`
 	// Hidden > 0 (declared catalogue functions only; reflect cannot build such
 	// a type): the object has an unexported field before field Hidden-1 and its
@@ -113,12 +114,13 @@ const (
 
 // Result is one declared result (tree: objects nest).
 type Result struct {
-	Kind    RKind    `json:"kind"`
-	T       int      `json:"t,omitempty"`
-	Name    string   `json:"name,omitempty"`
-	Group   string   `json:"group,omitempty"`
-	Flatten bool     `json:"flatten,omitempty"`
-	Fields  []Result `json:"fields,omitempty"`
+	Kind     RKind    `json:"kind"`
+	T        int      `json:"t,omitempty"`
+	Name     string   `json:"name,omitempty"`
+	Group    string   `json:"group,omitempty"`
+	Flatten  bool     `json:"flatten,omitempty"`
+	NamedRes int      `json:"named_res,omitempty"` // decorator group result declared as a named slice type: 1 KS<i>, 2 KT<i>
+	Fields   []Result `json:"fields,omitempty"`
 }
 
 type Role int
@@ -177,6 +179,7 @@ type LeafParam struct {
 	Opt        bool
 	Soft       bool
 	NamedSlice bool
+	NamedAlt   bool
 	Obj        int   // index of the innermost enclosing parameter object (-1 positional)
 	ObjPath    []int // indices of all enclosing parameter objects, outermost first
 }
@@ -184,8 +187,9 @@ type LeafParam struct {
 // LeafResult is a flattened result in declaration order. Keys lists every
 // key the value is stored under (As expands to several).
 type LeafResult struct {
-	Keys    []Key
-	Flatten bool
+	Keys     []Key
+	Flatten  bool
+	NamedRes int // decorator group result declared as a named slice type
 }
 
 // ErrIndex is the position of the error among the function's Go results
@@ -236,7 +240,7 @@ func (f *Func) LeafParams() []LeafParam {
 			case PSingle:
 				out = append(out, LeafParam{Key: Key{T: p.T, Name: p.Name}, Opt: p.Opt, Obj: obj, ObjPath: path})
 			case PGroup:
-				out = append(out, LeafParam{Key: Key{T: p.T, Group: p.Group}, Soft: p.Soft, NamedSlice: p.NamedSlice, Obj: obj, ObjPath: path})
+				out = append(out, LeafParam{Key: Key{T: p.T, Group: p.Group}, Soft: p.Soft, NamedSlice: p.NamedSlice, NamedAlt: p.NamedAlt, Obj: obj, ObjPath: path})
 			case PObj:
 				id := nobj
 				nobj++
@@ -267,7 +271,7 @@ func (f *Func) LeafResults() []LeafResult {
 				}
 				out = append(out, LeafResult{Keys: asKeys(r.T, name, "", f.OptAs)})
 			case RGroup:
-				out = append(out, LeafResult{Keys: []Key{{T: r.T, Group: r.Group}}, Flatten: r.Flatten})
+				out = append(out, LeafResult{Keys: []Key{{T: r.T, Group: r.Group}}, Flatten: r.Flatten, NamedRes: r.NamedRes})
 			case RObj:
 				walk(r.Fields, false)
 			}
